@@ -108,6 +108,14 @@ def mode_varweights(p):
             c = np.round((c - lo) / max(hi - lo, 1e-9) * 250)
         m = KMeansMachine(K)
         m.centroids_ = c
+        if seed % 4 == 3:
+            # the machine was TRAINED on this data and stopped at its iteration cap (assignments still changing)
+            m = KMeansMachine(K, init_method=np.array(c, float), max_iter=int(rs.randint(1, 3)), convergence_threshold=None)
+            with np.errstate(all="ignore"):
+                m.fit(x.astype(float))
+            c = np.asarray(m.centroids_)
+            if not np.all(np.isfinite(c)):
+                return None
         lab = ref_dist(x.astype(float), c).argmin(axis=0)
         if len(set(lab)) < K:
             return None
@@ -115,6 +123,11 @@ def mode_varweights(p):
         v = np.array([x[lab == k].astype(float).var(axis=0) for k in range(K)])
         cuts = sorted(set(rs.randint(1, N, size=rs.randint(0, 3)).tolist()))
         chunks = tuple(np.diff([0] + cuts + [N]).tolist())
+        if seed % 4 == 2:
+            # stored cluster after cluster: early blocks lack the later clusters, late blocks the earlier ones
+            order = np.argsort(lab, kind="stable")
+            x, lab = x[order], lab[order]
+            v = np.array([x[lab == k].astype(float).var(axis=0) for k in range(K)])
         for variant, data in (("numpy", x), ("dask%s" % (chunks,), da.from_array(x, chunks=(chunks, D)))):
             gv, gw = m.get_variances_and_weights_for_each_cluster(data)
             if not close(gw, w, 1e-9) or not close(gv, v, 1e-7):
@@ -136,6 +149,11 @@ def mode_criterion(p):
             K, D, N = 64, 2, 70000
             c = rs.uniform(-10, 10, size=(K, D))
             x = c[rs.randint(0, K, size=N)] + rs.normal(size=(N, D)) * 0.05
+        elif seed % 5 == 3:
+            # quantised samples and centroids on an integer grid: samples exactly equidistant from two centroids occur
+            K, D = 2, int(rs.randint(1, 3))
+            x = rs.randint(0, 5, size=(N, D)).astype(float)
+            c = np.array([[1.0] * D, [3.0] * D])
         else:
             x, c = blobs(rs, K, D, N)
         d = ref_dist(x, c)
@@ -184,9 +202,13 @@ def mode_fit_loop(p):
         real_m, real_e = km.m_step, km.e_step
         km.e_step = lambda data, means: (np.ones(1), np.ones((1, 1)), 0.0)
 
+        # the centroids of successive iterations: far from the origin and moving slowly in some runs -- the stopping rule
+        # looks at the criterion only, never at the centroid coordinates
+        c_off, c_step = float(rs.choice([0.0, 1e6])), float(rs.choice([1.0, 1e-3]))
+
         def fake_m(stats, n):
             calls.append(1)
-            return np.full((1, 1), float(len(calls))), float(L[len(calls)])
+            return np.full((1, 1), c_off + c_step * len(calls)), float(L[len(calls)])
         km.m_step = fake_m
         try:
             exp = None
@@ -206,7 +228,7 @@ def mode_fit_loop(p):
             m.fit(np.zeros((3, 1)))
         finally:
             km.m_step, km.e_step = real_m, real_e
-        if len(calls) != exp or m.centroids_[0, 0] != exp or m.average_min_distance != L[exp]:
+        if len(calls) != exp or m.centroids_[0, 0] != c_off + c_step * exp or m.average_min_distance != L[exp]:
             return {"input": {"criterion_sequence": L[1:], "threshold": thr, "max_iter": mx},
                     "observed": {"iterations": len(calls), "criterion": m.average_min_distance}, "expected": {"iterations": exp, "criterion": L[exp]},
                     "what": "fit ran %d iterations, the stated rule gives %d" % (len(calls), exp)}
